@@ -57,6 +57,7 @@ type PropSpec struct {
 	Assumptions []string      `json:"assumptions"`
 	Encoded     []string      `json:"functions_of_interest"`
 	CommonSkip  []string      `json:"common_exclude"`
+	Pretest     string        `json:"native_pretest"` // native test that must pass before exploring (e.g. codec validation)
 }
 
 type Registry struct {
@@ -262,6 +263,41 @@ func nativeReplay(p *PropSpec, cases []replayCase, scratch string) ([]replayResu
 	return res, log, nil
 }
 
+// nativePretest runs one native test of the harness package (go test -overlay).
+func nativePretest(p *PropSpec, scratch string) (string, error) {
+	ov, err := buildOverlay(p, scratch, true)
+	if err != nil {
+		return "", err
+	}
+	ovJSON, _ := json.Marshal(map[string]interface{}{"Replace": ov})
+	ovPath := filepath.Join(scratch, "overlay-pretest.json")
+	if err := os.WriteFile(ovPath, ovJSON, 0o644); err != nil {
+		return "", err
+	}
+	modRoot := repoDir
+	if p.Module != "" {
+		modRoot = filepath.Join(repoDir, p.Module)
+	}
+	for _, f := range []string{"go.mod", "go.sum"} {
+		data, err := os.ReadFile(filepath.Join(modRoot, f))
+		if err != nil {
+			return "", err
+		}
+		if err := os.WriteFile(filepath.Join(scratch, f), data, 0o644); err != nil {
+			return "", err
+		}
+	}
+	cmd := exec.Command("go", "test", "-tags", "verif", "-v", "-vet=off", "-count=1", "-run", "^"+p.Pretest+"$",
+		"-modfile="+filepath.Join(scratch, "go.mod"), "-overlay", ovPath, "./"+p.Dir)
+	cmd.Dir = modRoot
+	cmd.Env = append(os.Environ(), "GOFLAGS=-mod=mod", "GOPROXY=off", "GOSUMDB=off", "GOTOOLCHAIN=local", "GOWORK=off")
+	out, err := cmd.CombinedOutput()
+	if err == nil && !strings.Contains(string(out), "--- PASS: "+p.Pretest) {
+		err = fmt.Errorf("pretest did not run (skipped?)")
+	}
+	return string(out), err
+}
+
 func tail(s string, n int) string {
 	lines := strings.Split(s, "\n")
 	if len(lines) > n {
@@ -367,6 +403,13 @@ func cmdRun(prop string, o runOpts) int {
 	}
 	defer os.RemoveAll(scratch)
 
+	if p.Pretest != "" && !o.noReplay {
+		if out, err := nativePretest(p, scratch); err != nil {
+			fmt.Fprintf(os.Stderr, "vcheck: native pretest %s failed (exit 2, not a verdict):\n%s\n", p.Pretest, tail(out, 30))
+			return 2
+		}
+		fmt.Fprintf(os.Stderr, "native pretest %s passed\n", p.Pretest)
+	}
 	ovPaths, err := buildOverlay(p, scratch, false)
 	if err != nil {
 		fmt.Fprintln(os.Stderr, "vcheck:", err)
